@@ -195,3 +195,17 @@ fn c10_window_injective() {
     assert!(ia <= block_hash::IndexWindows::MASK);
     kani::cover!(same && la != lb);
 }
+
+// ---- C14: unchecked entry points agree with the checked ones under their contracts ----
+#[cfg(feature = "unchecked")]
+#[allow(unsafe_code)]
+#[kani::proof]
+fn c14_unchecked_block_size() {
+    let n: u8 = kani::any();
+    kani::assume(n < 31);
+    assert!(unsafe { block_size::from_log_unchecked(n) } == block_size::from_log(n).unwrap());
+    let bs: u32 = kani::any();
+    kani::assume(block_size::is_valid(bs));
+    assert!(unsafe { block_size::log_from_valid_unchecked(bs) } == block_size::log_from_valid(bs));
+    kani::cover!(n == 30);
+}
